@@ -1,8 +1,26 @@
 package simrt
 
 import (
+	crand "crypto/rand"
 	"time"
 )
+
+// RandRead replaces crypto/rand.Read in instrumented code: the random bytes are
+// real, but the call is a scheduling point (it is a system call: the goroutine
+// may be descheduled in it) and the destination is written only when the call
+// returns, so that other tasks running meanwhile see the buffer's old content.
+//
+//go:norace
+func RandRead(b []byte) (int, error) {
+	if S == nil || S.cur == nil {
+		return crand.Read(b)
+	}
+	tmp := make([]byte, len(b))
+	n, err := crand.Read(tmp)
+	Yield()
+	copy(b, tmp[:n])
+	return n, err
+}
 
 // Now is the virtual clock; instrumented code calls it instead of time.Now.
 //
